@@ -849,6 +849,7 @@ def run(ctx: Ctx) -> None:
 
 # ---------------------------------------------------------------------------
 WITNESSES = [
+    {"name": "seeded-C17-10", "file": "formulations/base_formulation.py", "old": "        \"\"\"Remove the sub scenarios design variables from the design space.\"\"\"\n        for scenario in self.get_sub_scenarios():\n            for var in scenario.formulation.design_space:\n                if var in self.optimization_problem.design_space:\n                    self.optimization_problem.design_space.remove_variable(var)\n\n", "new": "        \"\"\"Remove the sub scenarios design variables from the design space.\"\"\"\n        design_space = self.optimization_problem.design_space\n        sub_design_spaces = [\n            scenario.formulation.design_space for scenario in self.get_sub_scenarios()\n        ]\n        for name in design_space.variable_names:\n            if all(name in sub_design_space for sub_design_space in sub_design_spaces):\n                design_space.remove_variable(name)\n\n", "expect": "17.8", "note": "_remove_sub_scenario_dv_from_ds removes only the variables shared by all the sub"},
     {"name": "unmask-in-the-order-of-all-names", "file": BF, "old": "            for key in masking_data_names:\n                i_min, i_max, n_x = indices[key]\n                x_unmask[..., i_min:i_max] = x_masked[..., i_x : i_x + n_x]\n                i_x += n_x", "new": "            for key in all_data_names:\n                if key in masking_data_names:\n                    i_min, i_max, n_x = indices[key]\n                    x_unmask[..., i_min:i_max] = x_masked[..., i_x : i_x + n_x]\n                    i_x += n_x", "expect": "17.4"},
     {"name": "equilibrium-at-discipline-defaults", "file": IDF, "old": "        ).execute(current_x)", "new": "        ).execute()", "expect": "17.5"},
     {"name": "identity-rows-by-position-times-size", "file": CC, "old": "            o_min = 0\n            o_max = 0\n            for out in self.__output_couplings:\n", "new": "            for index, out in enumerate(self.__output_couplings):\n                o_min = index * self.__dv_len[out]\n                o_max = o_min\n", "expect": "17."},
